@@ -136,7 +136,7 @@ def _canon_block(stmts):
                 and isinstance(s.value.op, (ast.Add, ast.Sub)) and isinstance(s.value.right, ast.Constant) \
                 and isinstance(s.value.right.value, (int, float)) and not isinstance(s.value.right.value, bool) \
                 and isinstance(s.targets[0], (ast.Name, ast.Attribute)) \
-                and ast.dump(s.value.left).replace('Load()', 'X') == ast.dump(s.targets[0]).replace('Store()', 'X'):
+                and ast.dump(s.value.left).replace('Load()', 'X').replace('Store()', 'X') == ast.dump(s.targets[0]).replace('Load()', 'X').replace('Store()', 'X'):
             s = ast.copy_location(ast.AugAssign(target=s.targets[0], op=s.value.op, value=s.value.right), s)
         out.append(s)
     return out
